@@ -5,7 +5,7 @@ CONSTANTS
   MaxNodes = 1
   MaxDepth = 4
   Alphabet <- AlphaCore
-  MaxToks = 6
+  MaxToks = 5
   Big = FALSE
 SPECIFICATION SpecTexts
 INVARIANT PDAEqualsRD
